@@ -64,7 +64,8 @@ impl FileSystem {
     /// resolve object path under the bucket directory
     pub(crate) fn get_object_path(&self, bucket: &str, key: &str) -> Result<PathBuf> {
         let bucket_dir = self.get_bucket_path(bucket)?;
-        let file_path = Path::new(&key);
+        // Join first: a relative path that normalises to nothing (e.g. `x/..`) makes `path-dedot` panic.
+        let file_path = bucket_dir.join(key);
         // the key must not escape its bucket (e.g. `../other-bucket/key`)
         Ok(file_path.absolutize_virtually(&bucket_dir)?.into_owned())
     }
